@@ -3,7 +3,7 @@
 of the Props file (statement copied, name primed) to the Proofs file (which must already hold header + defs)."""
 import re, sys
 src = open(sys.argv[1]).read()
-body = src[src.index('\nvariable'):] if '\nvariable' in src else src
+body = src[src.index('\nnamespace'):]
 parts = re.split(r'\n(?=/--|theorem )', body)
 out = []
 for p in parts:
